@@ -8,6 +8,7 @@ COQ = os.path.join(VERIF, 'coq')
 BUILD = os.path.join(VERIF, 'build')
 MODELRUN = os.path.join(BUILD, 'modelrun')
 NUM_PROPS = ('C05', 'C06', 'C16', 'C17', 'C18', 'C19', 'C20')
+GEN_PROPS = ('C15',)
 GATE_RE = re.compile(r'\b(Admitted|admit|Axiom|Axioms|Parameter|Parameters|Conjecture|Hypothesis|Variable)\b|Unset\s+Guard|bypass_check|type-in-type|impredicative-set|Admit\s+Obligations')
 
 
@@ -32,14 +33,21 @@ class Lock:
         self.f.close()
 
 
-def run_translator():
-    """Regenerate Gen/Cdp2adp_gen.v from /repo/mechanisms/cdp2adp.py (only rewritten when the text changes).
+TRANSLATIONS = {
+    # name: (translator script, source relative to /repo, generated file, extra arguments)
+    'cdp': ('py2gallina.py', 'mechanisms/cdp2adp.py', 'Cdp2adp_gen.v', ['cdp_delta_standard', 'cdp_delta', 'cdp_eps', 'cdp_rho']),
+    'domain': ('py2gallina_list.py', 'src/mbi/domain.py', 'Domain_gen.v', ['domain']),
+}
+
+
+def run_translator(name='cdp'):
+    """Regenerate Gen/<file> from the source in /repo's working tree (only rewritten when the text changes).
     Returns (ok, message). On failure the previous file is left in place (other properties are unaffected)."""
-    dst = os.path.join(COQ, 'Gen', 'Cdp2adp_gen.v')
+    script, src, gen, extra = TRANSLATIONS[name]
+    dst = os.path.join(COQ, 'Gen', gen)
     os.makedirs(os.path.dirname(dst), exist_ok=True)
     tmp = dst + '.new'
-    rc, out = sh([sys.executable, os.path.join(VERIF, 'translator', 'py2gallina.py'), os.path.join(REPO, 'mechanisms', 'cdp2adp.py'), tmp,
-                  'cdp_delta_standard', 'cdp_delta', 'cdp_eps', 'cdp_rho'])
+    rc, out = sh([sys.executable, os.path.join(VERIF, 'translator', script), os.path.join(REPO, src), tmp] + extra)
     if rc != 0:
         if os.path.exists(tmp):
             os.remove(tmp)
@@ -67,7 +75,11 @@ def coq_make(prop):
     extracted model runners when stale.  Returns dict(ok, log, translator_ok, translator_msg): ok refers to
     Props/<prop>.vo and everything it depends on."""
     with Lock('coq'):
-        tok, tmsg = run_translator()
+        tok, tmsg = run_translator('cdp')
+        trs = {'cdp': (tok, tmsg)}
+        for nm in TRANSLATIONS:
+            if nm != 'cdp':
+                trs[nm] = run_translator(nm)
         if not os.path.exists(os.path.join(COQ, 'Makefile')):
             sh('coq_makefile -f _CoqProject -o Makefile', cwd=COQ)
         jobs = os.environ.get('VERIF_JOBS', '16')
@@ -76,22 +88,25 @@ def coq_make(prop):
         ok = rc1 == 0
         log = out if rc != 0 else ''
         log += out1 if rc1 != 0 else ''
-        for f in ('model.ml', 'model.mli', 'cdp_model.ml', 'cdp_model.mli', 'num_model.ml', 'num_model.mli'):
+        for f in ('model.ml', 'model.mli', 'cdp_model.ml', 'cdp_model.mli', 'num_model.ml', 'num_model.mli', 'gen_model.ml', 'gen_model.mli'):
             if os.path.exists(os.path.join(COQ, f)):
                 os.remove(os.path.join(COQ, f))
         wants = ['cdp'] if prop == 'C07' else (['num'] if prop in NUM_PROPS else ['main'])
         if prop in ('C05', 'C06'):
             wants = ['num', 'cdp']
+        if prop in GEN_PROPS:
+            wants = wants + ['gen']
         for want in wants:
-            binp = os.path.join(BUILD, {'cdp': 'cdprun', 'main': 'modelrun', 'num': 'numrun'}[want])
+            binp = os.path.join(BUILD, {'cdp': 'cdprun', 'main': 'modelrun', 'num': 'numrun', 'gen': 'genrun'}[want])
             src_t = _newest(['coq/Gen', 'coq/Base', 'ocaml/cdp', 'coq/Extract'], ('.v', '.ml')) if want == 'cdp' else \
+                _newest(['coq/Gen', 'coq/Base', 'ocaml/gen', 'coq/Extract'], ('.v', '.ml')) if want == 'gen' else \
                 _newest(['coq/Model', 'coq/Base', 'coq/Extract', 'ocaml'], ('.v', '.ml'))
             if not os.path.exists(binp) or os.path.getmtime(binp) < src_t:
                 rc2, out2 = sh([os.path.join(VERIF, 'harness', 'build_model.sh'), want], timeout=2000)
                 if rc2 != 0:
                     log += out2
                     ok = False
-        return dict(ok=ok, log=log, translator_ok=tok, translator_msg=tmsg)
+        return dict(ok=ok, log=log, translator_ok=tok, translator_msg=tmsg, translators=trs)
 
 
 def gate():
@@ -199,6 +214,21 @@ def run_model(lines, timeout=600, jobs=None):
     return res
 
 
+def run_gen(lines, timeout=600):
+    """Run the functions GENERATED from the Python source (build/genrun); one output line per input line."""
+    if not lines:
+        return []
+    binp = os.path.join(BUILD, 'genrun')
+    if not os.path.exists(binp):
+        return ['EXC genrun-not-built'] * len(lines)
+    rc, out = sh([binp], timeout=timeout, inp='\n'.join(lines) + '\n')
+    res = out.split('\n')
+    if res and res[-1] == '':
+        res.pop()
+    res += ['EXC gen-runner-died rc=%s' % rc] * (len(lines) - len(res))
+    return res[:len(lines)]
+
+
 def run_num(lines, timeout=600):
     """Run the float-instance numeric models (build/numrun); returns one list of floats (or an 'EXC ...' string) per line."""
     if not lines:
@@ -274,6 +304,7 @@ class Check:
         mk = coq_make(self.prop)
         ok, log = mk['ok'], mk['log']
         self.translator = (mk['translator_ok'], mk['translator_msg'])
+        self.translators = mk['translators']
         g = gate()
         pr = compile_props(self.prop) if ok else dict(ok=False, theorems=[], declared=[], log=log[-3000:])
         nl, files = lemma_count(self.prop)
